@@ -16,8 +16,11 @@ from drivers._data_enum import enumerate_families
 
 META = {
     "engine": "data",
-    "text": "Describe.tla defines service definitions (protocol name/doc/version, a varied method: kind x parameter list "
-            "x result type x header x state class x doc, an optional fixed second method), the single-point edits "
+    "text": "Describe.tla defines service definitions over every construct rpc_methods/build_describe_batch/"
+            "compute_protocol_hash read (protocol name/doc/version/module, inherited and private members, a varied method: "
+            "6 kinds incl. raw-StreamState and bare Stream x parameter list over 17 annotation forms x result type x 4 header "
+            "kinds incl. a field-less one x state class x doc x keyword-only x Optional spelling, an optional fixed second "
+            "method), the single-point edits "
             "(rename, retype, nullability flip, kind change, parameter add/remove/swap, header add/remove/change, "
             "state-class swap, docstring / default edits, method order, server id, other process, other implementation, "
             "declared version), the describe payload Payload(d), and ONE classification table Wire(edit) whose sanity "
